@@ -494,6 +494,11 @@ def _isinstance(eng, a, kw, st, fr, k, node):
         return k(z3.BoolVal(any(n in ("np.ndarray",) for n in names)), st)
     if v is PNONE:
         return k(z3.BoolVal(False), st)
+    if isinstance(v, Exc):
+        from .engine import exc_is_subclass
+        if v.cls == "Any":
+            return k(z3.Function("isinstance:" + key, V, z3.BoolSort())(eng.to_v(v)), st)
+        return k(z3.BoolVal(any(exc_is_subclass(v.cls, n.split(".")[-1]) for n in names)), st)
     if isinstance(v, dict) or (isinstance(v, Ref) and v.kind == "dict"):
         return k(z3.BoolVal("dict" in names), st)
     if _is_z3(v) and z3.is_int(v):
